@@ -1,3 +1,4 @@
+import UberjobModel.Gen.DryRun
 import UberjobModel.Model.Exec
 import UberjobModel.Lemmas.PhysChain
 /-!
@@ -7,6 +8,12 @@ import UberjobModel.Lemmas.PhysChain
 -/
 set_option linter.unusedSectionVars false
 namespace Uberjob.Exec
+
+/-- The text the physical-plan model transcribes — the registry loop of `plan_with_value_stores` and the whole of
+    `_add_value_store` — is, statement for statement, the text of the current source (T1, `Gen.DryRun`).  Every end-to-end
+    theorem (C03, C05, C08, C09) stands on this file, so a change of either function breaks all of them. -/
+theorem phys_source_shape : Uberjob.Gen.DryRun.facts.registryLoopShape = true ∧
+    Uberjob.Gen.DryRun.facts.addValueStoreShape = true := by decide
 open Uberjob.Phys Uberjob.Cache
 
 theorem decode_code (a : PN) : decode (code a) = a := by
